@@ -54,52 +54,68 @@ def PSel.indices (n : Nat) : PSel → Option (List Nat)
 def lookupSel (sels : List (String × PSel)) (k : String) : Option PSel :=
   (sels.find? (·.1 == k)).map (·.2)
 
+/-- does the selector of dimension `k` take part in the pointwise (zipped) selection? -/
+def isZipSel (sels : List (String × PSel)) (zipped : Bool) (k : String) : Bool :=
+  match lookupSel sels k with
+  | some s => zipped && s.isList
+  | none => false
+
+/-- index lists per selected dimension -/
+def sliceIdx (f : File) (sels : List (String × PSel)) : Except String (List (String × List Nat)) :=
+  sels.mapM (fun p => match p.2.indices (f.dimLen p.1) with
+    | some l => .ok (p.1, l)
+    | none => .error "IndexError")
+
+/-- the selection on the axis of dimension `k` -/
+def selOfDim (f : File) (sels : List (String × PSel)) (idx : List (String × List Nat)) (zipped : Bool) (k : String) : Sel :=
+  match idx.find? (·.1 == k), lookupSel sels k with
+  | some p, some s => if zipped && s.isList then Sel.zip p.2 else Sel.keep p.2
+  | _, _ => Sel.keep (List.range (f.dimLen k))
+
+def selIdxs : Sel → List Nat
+  | .zip l => l
+  | .keep l => l
+
+/-- one variable of the sliced file -/
+def sliceVar (f : File) (sels : List (String × PSel)) (idx : List (String × List Nat)) (zipped : Bool) (L : Nat)
+    (newdim : String) (v : Var) : Except String Var :=
+  let ss := v.dims.map (selOfDim f sels idx zipped)
+  if (v.dims.filter (isZipSel sels zipped)).length ≥ 2 then
+    let firstZ := (v.dims.map (isZipSel sels zipped)).idxOf true
+    let kept := v.dims.filter (fun k => !(isZipSel sels zipped k))
+    match zipSel L ss v.data with
+    | some d => .ok { v with dims := kept.take firstZ ++ [newdim] ++ kept.drop firstZ, data := d }
+    | none => .error "IndexError"
+  else
+    -- a single zipped-mode list acting alone on this variable is an ordinary orthogonal list
+    .ok { v with data := orth (ss.map selIdxs) v.data }
+
+/-- new length of a dimension -/
+def slicedLen (idx : List (String × List Nat)) (d : Dim) : Nat :=
+  match idx.find? (·.1 == d.name) with
+  | some p => p.2.length
+  | none => d.len
+
 /-- `sliceDimensions(newdims=(newdim,), **sels)` -/
-def sliceFile (f : File) (sels : List (String × PSel)) (newdim : String) : Except String File := do
+def sliceFile (f : File) (sels : List (String × PSel)) (newdim : String) : Except String File :=
   -- every keyword must name a dimension
-  for (k, _) in sels do
-    if (f.dim? k).isNone then throw "KeyError"
+  if sels.any (fun p => (f.dim? p.1).isNone) then .error "KeyError"
   -- zero step
-  for (_, s) in sels do
-    match s with
-    | .slice _ _ 0 => throw "ValueError"
-    | _ => pure ()
-  let nlists := (sels.filter (·.2.isList)).length
-  let zipped := nlists ≥ 2
-  let listLens := sels.filterMap (fun (_, s) => match s with | .list l => some l.length | _ => none)
-  if zipped ∧ !(listLens.all (· == listLens.headD 0)) then throw "ValueError"
-  let L := listLens.headD 0
-  -- index lists per selected dimension
-  let mut idx : List (String × List Nat) := []
-  for (k, s) in sels do
-    match s.indices (f.dimLen k) with
-    | some l => idx := idx ++ [(k, l)]
-    | none => throw "IndexError"
-  let newLen (d : Dim) : Nat := match idx.find? (·.1 == d.name) with
-    | some (_, l) => l.length
-    | none => d.len
-  let dims' := f.dims.map (fun d => { d with len := newLen d })
-  let dims' := if zipped then dims' ++ [⟨newdim, L, false⟩] else dims'
-  let selOf (k : String) : Sel :=
-    match idx.find? (·.1 == k), lookupSel sels k with
-    | some (_, l), some s => if zipped ∧ s.isList then Sel.zip l else Sel.keep l
-    | _, _ => Sel.keep (List.range (f.dimLen k))
-  let mut vars' : List Var := []
-  for v in f.vars do
-    let ss := v.dims.map selOf
-    let nz := (v.dims.filter (fun k => match lookupSel sels k with | some s => zipped ∧ s.isList | none => false)).length
-    if nz ≥ 2 then
-      let firstZ := (v.dims.map (fun k => match lookupSel sels k with | some s => zipped && s.isList | none => false)).idxOf true
-      let kept := v.dims.filter (fun k => match lookupSel sels k with | some s => !(zipped && s.isList) | none => true)
-      let odims := kept.take (firstZ) ++ [newdim] ++ kept.drop firstZ
-      match zipSel L ss v.data with
-      | some d => vars' := vars' ++ [{ v with dims := odims, data := d }]
-      | none => throw "IndexError"
+  else if sels.any (fun p => match p.2 with | .slice _ _ 0 => true | _ => false) then .error "ValueError"
+  else
+    let zipped := decide ((sels.filter (·.2.isList)).length ≥ 2)
+    let listLens := sels.filterMap (fun p => match p.2 with | .list l => some l.length | _ => none)
+    if zipped && !(listLens.all (· == listLens.headD 0)) then .error "ValueError"
     else
-      -- a single zipped-mode list acting alone on this variable is an ordinary orthogonal list
-      let ss' := ss.map (fun s => match s with | Sel.zip l => l | Sel.keep l => l)
-      vars' := vars' ++ [{ v with data := orth ss' v.data }]
-  return { f with dims := dims', vars := vars' }
+      let L := listLens.headD 0
+      match sliceIdx f sels with
+      | .error e => .error e
+      | .ok idx =>
+        let dims' := f.dims.map (fun d => { d with len := slicedLen idx d })
+        let dims' := if zipped then dims' ++ [⟨newdim, L, false⟩] else dims'
+        match f.vars.mapM (sliceVar f sels idx zipped L newdim) with
+        | .ok vars' => .ok { f with dims := dims', vars := vars' }
+        | .error e => .error e
 
 /-! ### stack -/
 
@@ -108,44 +124,44 @@ def concatAll (k : Nat) : List (Arr Cell) → Arr Cell
   | [a] => a
   | a :: b :: rest => Arr.concat k a (concatAll k (b :: rest))
 
+/-- the variables of all files: the first occurrence of each name, in order of appearance -/
+def firstByName : List Var → List Var → List Var
+  | acc, [] => acc
+  | acc, v :: vs => if acc.any (·.name == v.name) then firstByName acc vs else firstByName (acc ++ [v]) vs
+
+/-- one variable of the stacked file: kept as it is when it does not have the stack dimension, otherwise the
+concatenation, along that axis, of the variable of that name of every file in order -/
+def stackVar (fs : List File) (sd : String) (v : Var) : Except String Var :=
+  if !(v.dims.contains sd) then .ok v
+  -- a variable that carries the stack dimension on two axes: the code concatenates along the first and lets numpy
+  -- stretch the result over the others (or fail); not specified here
+  else if (v.dims.filter (· == sd)).length > 1 then .error "unspec"
+  else match fs.mapM (fun h => h.var? v.name) with
+    | some ws => .ok { v with data := concatAll (v.dims.idxOf sd) (ws.map (·.data)) }
+    | none => .error "KeyError"
+
+/-- the dimensions other than the stack dimension that have one length in every file -/
+def sharedDims (fs : List File) (f0 : File) (sd : String) : List Dim :=
+  (f0.dims.filter (fun d => d.name != sd)).filter (fun d => fs.all (fun g => g.dimLen d.name == d.len))
+
 /-- `fs[0].stack(fs[1:], stackdim)` -/
-def stackFiles (fs : List File) (sd : String) : Except String File := do
+def stackFiles (fs : List File) (sd : String) : Except String File :=
   match fs with
-  | [] => throw "IndexError"
+  | [] => .error "IndexError"
   | f0 :: _ =>
-    -- shared dimensions: same length in every file (every file must have them)
-    let mut shared : List Dim := []
-    for d in f0.dims do
-      if d.name != sd then
-        for g in fs do
-          if (g.dim? d.name).isNone then throw "KeyError"
-        if fs.all (fun g => g.dimLen d.name == d.len) then shared := shared ++ [d]
+    -- every file must have the dimensions of the first
+    if (f0.dims.filter (fun d => d.name != sd)).any (fun d => fs.any (fun g => (g.dim? d.name).isNone)) then
+      .error "KeyError"
     -- every other dimension of every file must be the stack dimension
-    for g in fs do
-      for d in g.dims do
-        if d.name != sd ∧ !(shared.any (·.name == d.name)) then throw "AssertionError"
-    for g in fs do
-      if (g.dim? sd).isNone then throw "KeyError"
-    let total := (fs.map (·.dimLen sd)).foldl (· + ·) 0
-    let sdim : Dim := { name := sd, len := total, unlim := ((f0.dim? sd).map (·.unlim)).getD false }
-    let mut vars : List Var := []
-    for g in fs do
-      for v in g.vars do
-        if vars.any (·.name == v.name) then continue
-        if !(v.dims.contains sd) then
-          vars := vars ++ [v]
-        else
-          -- a variable that carries the stack dimension on two axes: the code concatenates along the first and lets numpy
-          -- stretch the result over the others (or fail); not specified here
-          if (v.dims.filter (· == sd)).length > 1 then throw "unspec"
-          let k := v.dims.idxOf sd
-          let mut parts : List (Arr Cell) := []
-          for h in fs do
-            match h.var? v.name with
-            | some w => parts := parts ++ [w.data]
-            | none => throw "KeyError"
-          vars := vars ++ [{ v with data := concatAll k parts }]
-    return { dims := shared ++ [sdim], vars := vars, attrs := f0.attrs }
+    else if fs.any (fun g => g.dims.any (fun d => d.name != sd && !((sharedDims fs f0 sd).any (·.name == d.name)))) then
+      .error "AssertionError"
+    else if fs.any (fun g => (g.dim? sd).isNone) then .error "KeyError"
+    else
+      let total := (fs.map (·.dimLen sd)).foldl (· + ·) 0
+      let sdim : Dim := { name := sd, len := total, unlim := ((f0.dim? sd).map (·.unlim)).getD false }
+      match (firstByName [] (fs.flatMap (·.vars))).mapM (stackVar fs sd) with
+      | .ok vars => .ok { dims := sharedDims fs f0 sd ++ [sdim], vars := vars, attrs := f0.attrs }
+      | .error e => .error e
 
 /-! ### apply along dimensions -/
 
